@@ -170,6 +170,12 @@ def elemOfCode : Nat → Option C06M.Elem
 def codeOfElem : C06M.Elem → Nat
   | .f32 => 1 | .f64 => 11 | .i32 => 6 | .i64 => 7 | .bool => 9 | .str => 8
 
+/-- hypothesis of `supplemented_refines_partial` for one Compress call: the own answer refines the standard one -/
+def compressHyp (r : Except Err Ty) (std : List (String × Option Ty)) : List (String × Json) :=
+  match r, std with
+  | .ok t, [(k, st)] => [("own_refines_std", toJson (refinesAll [(k, some t)] [(k, st)]))]
+  | _, _ => []
+
 def handle (req : Json) : Json :=
   match (do
     let c ← parseCall req
@@ -220,7 +226,9 @@ def handle (req : Json) : Json :=
             | some lj => do
               let rs ← tyList (← lj.getObjVal? "results")
               let as ← tyList (← lj.getObjVal? "args")
-              pure [("loop_own", pairsJ (loopOwn rs as std))]
+              pure [("loop_own", pairsJ (loopOwn rs as std)),
+                    -- hypothesis of `supplemented_refines_partial`, evaluated on this very call
+                    ("own_refines_std", toJson (refinesAll (loopOwn rs as std) std))]
             | none => pure []
           let cp ← match (req.getObjVal? "compress").toOption with
             | some cj => do
@@ -229,10 +237,11 @@ def handle (req : Json) : Json :=
                 | none => none
               let tys := c.inPairs.map (fun (p : String × Nat) => (c.info p.2).ty)
               match tys with
-              | [some inp, some cond] =>
-                pure [("compress_own", match compressOwn inp cond axis with
+              | [some inp, some cond] => do
+                let ownJ : Json := match compressOwn inp cond axis with
                   | .ok t => tyJ t
-                  | .error _ => Json.str "inference")]
+                  | .error _ => Json.str "inference"
+                pure ([("compress_own", ownJ)] ++ compressHyp (compressOwn inp cond axis) std)
               | _ => pure []
             | none => pure []
           pure (lp ++ cp)
